@@ -123,6 +123,8 @@ def main():
         pid = p["id"]
         if pid in CHECKS:
             tech, text, note, ref = CHECKS[pid]
+            if pid in {"C01","C03","C09","C10","C14","C15","C16","C18","C20"}:
+                tech += "; Go race detector (-race build) over the classes that run several goroutines inside the library"
             text += EXTRA.get(pid, "")
             if pid in PARALLEL:
                 text += " Cases of a shard are judged on 4 goroutines (shared state inside the library shows up as wrong verdicts)."
